@@ -237,6 +237,12 @@ centralised_messages = {
         "description": "Raised when URL datapoints are provided but data_structures is not a "
         "file path or URL for fetching the SDMX structure definition.",
     },
+    "0-1-3-9": {
+        "message": "SDMX data type {dtype} of component {comp_name} cannot be mapped "
+        "to a VTL data type.",
+        "description": "Raised when an SDMX structure declares a component with a data type "
+        "that has no VTL equivalent (e.g. XHTML, GeospatialInformation).",
+    },
     # Env var errors
     "0-4-1-1": {
         "message": "Invalid value for {env_var}: {value}. "
